@@ -35,3 +35,23 @@ Proof.
   unfold front_joint_labels. apply mapM_pure. intros p _. apply g_pad_missing_labels_eq. exact HW.
 Qed.
 Print Assumptions C04_code_joint.
+
+(* ---- the single-series front end AS TRANSLATED in skeleton mode (Gen/G_front_single.v; every callee an oracle; facts:
+   Proofs/GenEquivFE.v): a call that returns made exactly the calls  UserArguments(...), stack_training_data(data, W),
+   fit_stacked_data(params, stacked), pad_missing_labels(result.point_labels, W), result.point_labels = padded  in this
+   order - so the labels handed back are the main loop's labels padded for window W, and nothing else touches them ---- *)
+From Ticc Require Import Gen.PySkel Gen.G_front_single Proofs.GenEquivFE.
+Theorem C04_code_single_plumbing : forall (V : Type) (getattr : V -> string -> V)
+    (oracle : list (event V) -> string -> list V -> res V)
+    (data W K lam beta lim eps procs m biased r : V) (log log' : list (event V)),
+  g_ticc_labels V getattr oracle data W K lam beta lim eps procs m biased log = (Ret r, log') ->
+  exists params stacked res padded,
+    log' = (log ++ [Ev f_args [W; K; lam; beta; lim; eps; procs; m; biased];
+                    Ev f_stack [data; W];
+                    Ev f_fit [params; stacked];
+                    Ev f_pad [getattr res "point_labels"%string; W];
+                    Ev "setattr:point_labels"%string [res; padded]])%list /\
+    oracle log f_args [W; K; lam; beta; lim; eps; procs; m; biased] = Ret params /\
+    oracle (log ++ [Ev f_args [W; K; lam; beta; lim; eps; procs; m; biased]])%list f_stack [data; W] = Ret stacked.
+Proof. exact single_returns. Qed.
+Print Assumptions C04_code_single_plumbing.
